@@ -217,6 +217,17 @@ func checkCase(c Case, e *env.Env) (*hx.Violation, info) {
 		for i := range wholeSamples {
 			wholeSamples[i].Data = nil
 		}
+		// every chunk is protected on its own: it carries the sample encryption box with one entry per sample of that chunk
+		// (a chunk without it cannot be decrypted although its payload is ciphertext)
+		for k, fr := range cseg.Frags {
+			traf := fr.Raw.Moof.Traf
+			if traf == nil || traf.Senc == nil {
+				return hx.V("chunk-without-senc", "%s: chunk %d of %d has no sample encryption (senc) box although %s was requested", url, k+1, len(cseg.Frags), c.DRM), inf
+			}
+			if int(traf.Senc.SampleCount) != len(fr.Samples) {
+				return hx.V("chunk-senc-count", "%s: chunk %d: senc lists %d samples, the chunk has %d", url, k+1, traf.Senc.SampleCount, len(fr.Samples)), inf
+			}
+		}
 	}
 	if err := mp4x.SameMedia(chunkedSamples, wholeSamples, true); err != nil {
 		return hx.V("media-differs", "%s vs whole segment %s: %v", url, wurl, err), inf
